@@ -135,8 +135,11 @@ def design_cond(fam, N, x, y):
 
 
 def random_coeffs(rnd, N):
-    mode = rnd.choice(["uniform", "decades", "sparse", "unit"])
-    if mode == "uniform":
+    mode = rnd.choice(["uniform", "decades", "sparse", "unit", "large"])
+    if mode == "large":       # hundreds to thousands of waves (a strongly defocused or aberrated wavefront)
+        s = 10 ** rnd.uniform(2, 4)
+        c = [rnd.uniform(-1, 1) * s for _ in range(N)]
+    elif mode == "uniform":
         c = [rnd.uniform(-1, 1) for _ in range(N)]
     elif mode == "decades":
         c = [rnd.uniform(-1, 1) * 10 ** rnd.uniform(-3, 2) for _ in range(N)]
